@@ -6,17 +6,25 @@ Semantics the translation gives (all of it visible in the generated text; the pr
 
 * every C integer is a `BitVec w` of its desugared type's width (8/16/32/64); every operator node is translated in the
   type clang gave it - the integer promotions and usual arithmetic conversions are the `ImplicitCastExpr` nodes of the
-  AST and become `zx`/`sx`/truncation.  Signed overflow is not tracked (it wraps, as on the target).
-* a pointer parameter is a read-only block `List (BitVec w)` plus an index (`Nat`); `*p`, `p[i]` are `load`s that
-  answer `Res.oob` outside the block; `p++` moves the index.  A `const` array at file scope is a `List` literal.
-* a statement list is a continuation chain; an `if` without `else` whose branch does not return is continued in
-  both branches.  A loop becomes a function by recursion on a fuel argument whose parameters are all scalar
-  variables in scope; running out of fuel answers `Res.nofuel`, so a theorem `fuel > bound -> f fuel .. = Res.val ..`
-  also says the C loop terminates within the bound.
-* calls of functions of the same file are calls of their translations (bound with `Res.bind`).
+  AST and become `zx`/`sx`/`tr`.  Signed overflow is not tracked (it wraps, as on the target).
+* a pointer parameter is a block `List (BitVec w)` plus an index (`Nat`); `*p`, `p[i]` are `load`s / `store`s that answer
+  `Res.oob` outside the block; `p++` moves the index.  A pointer to a union is a block of one cell of the members'
+  width (the members alias).  `&x` of a local hands over the one-cell block `[x]`.  A `const` array at file scope is a
+  `List` literal.
+* a pointer to a structure is the bundle of the fields the function (or a function it calls) uses: scalar fields are
+  variables `p_f`, pointer fields are blocks `p_f_mem`.  Two structure pointers are taken not to alias.
+* what a function writes (scalar fields, blocks, opaque state such as a `Source`) it returns next to its value:
+  `Res (value × written ...)`, in parameter order.
+* a statement list is a continuation chain; an `if` whose branch does not return is continued in both branches.  A
+  loop becomes a function by recursion on a fuel argument whose parameters are all scalar variables in scope and all
+  blocks the function writes; running out of fuel answers `Res.nofuel`, so a theorem `fuel > bound -> f fuel .. =
+  Res.val ..` also says the C loop terminates within the bound.
+* a local without initialiser takes its value from the oracle parameter `undef` (theorems hold for every oracle).
+* calls of functions of the same file are calls of their translations (bound with `Res.bind`); the external
+  functions of EXTERNS are calls of their prelude counterparts.
 
-Anything else (`continue`, `break`, `goto`, `switch`, writes through pointers, structures, floating point, loads on the
-right of `&&`/`||`, function pointers ...) makes that function `unavailable(<reason>)`.
+Anything else (`continue`, `break`, `goto`, `switch`, structure locals, arrays on the stack, floating point, loads
+on the right of `&&`/`||`, function pointers ...) makes that function `unavailable(<reason>)`.
 """
 import json
 import os
@@ -36,8 +44,11 @@ INT_TYPES = {
     "unsigned short": (16, False), "short": (16, True),
     "unsigned int": (32, False), "int": (32, True),
     "unsigned long": (64, False), "long": (64, True),
-    "unsigned long long": (64, False), "long long": (64, True), "_Bool": (8, False),
+    "unsigned long long": (64, False), "long long": (64, True), "_Bool": (8, False), "bool": (8, False),
 }
+TYPEDEFS = {}
+RECORDS = {}       # name -> (is_union, [(field, qualType)])
+OPAQUE = {"ufw_source": "Src"}      # structures that are only handed on to external functions
 
 
 def dq(n):
@@ -45,11 +56,8 @@ def dq(n):
     return t.get("desugaredQualType", t.get("qualType", ""))
 
 
-TYPEDEFS = {}
-
-
 def ctype(q):
-    """('int', width, signed) | ('ptr', elem ctype) | ('void',)"""
+    """('int', width, signed) | ('ptr', elem) | ('void',) | ('rec', name)"""
     q = q.replace("const ", "").replace("volatile ", "").replace(" const", "").strip()
     seen = 0
     while q in TYPEDEFS and seen < 10:
@@ -65,7 +73,22 @@ def ctype(q):
     if q in INT_TYPES:
         w, s = INT_TYPES[q]
         return ("int", w, s)
+    if q.startswith("enum "):
+        return ("int", 32, False)
+    if q.startswith("struct ") or q.startswith("union "):
+        name = q.split(" ", 1)[1]
+        if name in RECORDS:
+            return ("rec", name)
     raise Unavailable("type " + q)
+
+
+def union_cell(name):
+    """a union whose members are integers of one width is one cell of that width"""
+    is_union, fields = RECORDS[name]
+    ts = [ctype(q) for _, q in fields]
+    if not is_union or any(t[0] != "int" for t in ts) or len({t[1] for t in ts}) != 1:
+        raise Unavailable("record " + name)
+    return ("int", ts[0][1], False)
 
 
 def bv(t):
@@ -82,10 +105,15 @@ def parse(src):
         raise RuntimeError("clang cannot parse %s: %s" % (src, r.stderr[-400:]))
     d = json.loads(r.stdout)
     fns, tables = [], {}
+    TYPEDEFS.clear()
+    RECORDS.clear()
     for n in d["inner"]:
         if n.get("kind") == "TypedefDecl":
             t = n.get("type", {})
             TYPEDEFS[n["name"]] = t.get("desugaredQualType", t.get("qualType", ""))
+        if n.get("kind") == "RecordDecl" and n.get("name") and n.get("completeDefinition"):
+            RECORDS[n["name"]] = (n.get("tagUsed") == "union",
+                                  [(f["name"], dq(f)) for f in n.get("inner", []) if f.get("kind") == "FieldDecl"])
         loc = n.get("loc", {})
         if "includedFrom" in loc or "includedFrom" in loc.get("expansionLoc", {}) or "includedFrom" in loc.get("spellingLoc", {}):
             continue
@@ -104,55 +132,129 @@ def lit_value(e):
     return int(e["value"])
 
 
+class Iface:
+    """what a caller has to know about a translated (or external) function"""
+    def __init__(self, name, ret, comps, needs_undef, needs_fuel=True):
+        self.name, self.ret, self.comps, self.needs_undef, self.needs_fuel = name, ret, comps, needs_undef, needs_fuel
+        # comps: one per C parameter:
+        #   ('int', t) | ('block', elem, written) | ('struct', rec, [(field, ('int', t, written) | ('blk', elem, written))]) | ('opaque', leantype)
+
+
+# external functions: prelude counterparts (lean/Ufw/Tie/CPre.lean)
+EXTERNS = {
+    # int source_get_octet(Source *source, void *data)
+    "source_get_octet": Iface("source_get_octet", ("int", 32, True), [("opaque", "Src"), ("block", ("int", 8, False), True)], False, needs_fuel=False),
+}
+
+
 class Fn:
-    def __init__(self, node, unit):
+    def __init__(self, node, unit, known=None):
         self.node = node
         self.unit = unit
         self.name = node["name"]
         self.body = [c for c in node["inner"] if c.get("kind") == "CompoundStmt"][0]
         q = dq(node)
         self.ret = ctype(q.split("(")[0].strip())
-        if self.ret[0] == "ptr":
-            raise Unavailable("function returning a pointer")
-        self.params = []
+        if self.ret[0] not in ("int", "void"):
+            raise Unavailable("function returning " + self.ret[0])
+        self.cparams = []
         for p in node.get("inner", []):
             if p.get("kind") == "ParmVarDecl":
-                self.params.append((p["name"], ctype(dq(p))))
-        self.vars = {}          # name -> ctype ; pointers: ('ptr', elem) with self.mem[name] = block name
-        self.mem = {}
-        self.scope = []         # scalar / pointer-index variables in declaration order
+                self.cparams.append((p.get("name", "_"), ctype(dq(p))))
+        self.known = known          # result of the first pass: {'fields': {p: [f..]}, 'written': set(), 'undef': bool}
+        self.vars = {}              # scalar / pointer variables: name -> ('int', w, s) | ('ptr', elem)
+        self.mem = {}               # pointer variable -> block it points into
+        self.blocks = {}            # block (Lean name) -> elem type
+        self.structs = {}           # struct pointer parameter -> record name
+        self.opaques = {}           # opaque parameter -> Lean type
+        self.fieldvar = {}          # (p, field) -> ('var', leanname, t) | ('blk', blockname, elem)
+        self.scope = []
+        self.all_types = {}
         self.pending = []
         self.tmp = 0
         self.loops = []
         self.nloops = 0
         self.calls = set()
-        self.all_types = {}
+        self.used_fields = {}       # p -> set(field)
+        self.written = set()        # Lean names of blocks / field variables / opaque parameters that are assigned
+        self.uses_undef = False
+        self.nundef = 0
 
-    # ------------------------------------------------------------------ expressions
+    # ------------------------------------------------------------------ bookkeeping
     def fresh(self):
         self.tmp += 1
         return "t%d" % self.tmp
 
-    def cast(self, term, frm, to):
-        if frm[0] != "int" or to[0] != "int":
-            raise Unavailable("cast between %s and %s" % (frm[0], to[0]))
-        if frm[1] == to[1]:
-            return term
-        if to[1] < frm[1]:
-            return "(tr %d %s)" % (to[1], term)
-        return "(%s %d %s)" % ("sx" if frm[2] else "zx", to[1], term)
+    def declare(self, name, t, block=None):
+        self.all_types[name] = t
+        self.vars[name] = t
+        if t[0] == "ptr":
+            self.mem[name] = block
+        self.scope.append(name)
 
-    def lvalue_var(self, e):
+    def undef(self, t):
+        self.uses_undef = True
+        self.nundef += 1
+        return "(tr %d (undef %d))" % (t[1], self.nundef - 1)
+
+    def wblocks(self):
+        """blocks the function writes (known from the first pass), in declaration order"""
+        w = self.known["written"] if self.known else set()
+        return [b for b in self.blocks if b in w]
+
+    def field(self, p, f):
+        self.used_fields.setdefault(p, set()).add(f)
+        if (p, f) not in self.fieldvar:
+            raise Unavailable("field %s->%s" % (p, f))
+        return self.fieldvar[(p, f)]
+
+    # ------------------------------------------------------------------ lvalues, pointers
+    def strip_paren(self, e):
         while e.get("kind") == "ParenExpr":
             e = e["inner"][0]
-        if e.get("kind") == "DeclRefExpr" and e["referencedDecl"]["name"] in self.vars:
-            return e["referencedDecl"]["name"]
-        return None
+        return e
+
+    def lvalue(self, e):
+        """('var', name, t) | ('mem', block, index term, t) | ('ptr', name)"""
+        e = self.strip_paren(e)
+        k = e.get("kind")
+        if k == "DeclRefExpr":
+            name = e["referencedDecl"]["name"]
+            if name in self.vars:
+                t = self.vars[name]
+                return ("ptr", name) if t[0] == "ptr" else ("var", name, t)
+            raise Unavailable("variable " + name)
+        if k == "UnaryOperator" and e["opcode"] == "*":
+            b, i, t = self.pointer(e["inner"][0])
+            return ("mem", b, i, t)
+        if k == "ArraySubscriptExpr":
+            base, idx = e["inner"]
+            b, i, t = self.pointer(base)
+            return ("mem", b, "(%s + (%s).toNat)" % (i, self.expr(idx)), t)
+        if k == "MemberExpr":
+            base = e["inner"][0]
+            if e.get("isArrow"):
+                root = base
+                while root.get("kind") in ("ImplicitCastExpr", "ParenExpr"):
+                    root = root["inner"][0]
+                if root.get("kind") == "DeclRefExpr" and root["referencedDecl"]["name"] in self.structs:
+                    fv = self.field(root["referencedDecl"]["name"], e["name"])
+                    if fv[0] == "var":
+                        return ("var", fv[1], fv[2])
+                    raise Unavailable("pointer field used as a value")
+                b, i, t = self.pointer(base)        # pointer to a union: one cell
+                return ("mem", b, i, t)
+            root = self.strip_paren(base)
+            if root.get("kind") == "DeclRefExpr" and root["referencedDecl"]["name"] in self.vars:
+                name = root["referencedDecl"]["name"]
+                if self.vars[name][0] == "int":
+                    return ("var", name, self.vars[name])      # member of a local union: the cell itself
+        raise Unavailable("lvalue " + str(k))
 
     def pointer(self, e):
         """(block, index term, elem type) of a pointer-valued expression"""
         k = e.get("kind")
-        if k in ("ParenExpr",):
+        if k == "ParenExpr":
             return self.pointer(e["inner"][0])
         if k in ("ImplicitCastExpr", "CStyleCastExpr"):
             ck = e.get("castKind")
@@ -160,8 +262,7 @@ class Fn:
                 return self.pointer(e["inner"][0])
             if ck == "BitCast":
                 b, i, t = self.pointer(e["inner"][0])
-                to = ctype(dq(e))
-                if to[0] != "ptr" or to[1] != t:
+                if self.elem_of_pointer_type(dq(e)) != t:
                     raise Unavailable("pointer cast that changes the element type")
                 return b, i, t
             if ck == "ArrayToPointerDecay":
@@ -176,18 +277,52 @@ class Fn:
             if name in self.mem:
                 return self.mem[name], name, self.vars[name][1]
             raise Unavailable("pointer " + name)
-        if k == "BinaryOperator" and e["opcode"] in ("+",):
+        if k == "MemberExpr" and e.get("isArrow"):
+            root = e["inner"][0]
+            while root.get("kind") in ("ImplicitCastExpr", "ParenExpr"):
+                root = root["inner"][0]
+            if root.get("kind") == "DeclRefExpr" and root["referencedDecl"]["name"] in self.structs:
+                fv = self.field(root["referencedDecl"]["name"], e["name"])
+                if fv[0] == "blk":
+                    return fv[1], "0", fv[2]
+            raise Unavailable("pointer member")
+        if k == "BinaryOperator" and e["opcode"] == "+":
             l, r = e["inner"]
             if ctype(dq(l))[0] == "ptr":
                 b, i, t = self.pointer(l)
                 return b, "(%s + (%s).toNat)" % (i, self.expr(r)), t
+        if k == "UnaryOperator" and e["opcode"] == "&":
+            raise Unavailable("address of a variable outside a call")
         raise Unavailable("pointer expression " + str(k))
 
-    def load(self, ptr_expr):
-        b, i, t = self.pointer(ptr_expr)
-        v = self.fresh()
-        self.pending.append("load %s %s fun %s =>" % (b, i, v))
-        return v, t
+    def elem_of_pointer_type(self, q):
+        t = ctype(q)
+        if t[0] != "ptr":
+            raise Unavailable("not a pointer: " + q)
+        if t[1][0] == "rec":
+            return union_cell(t[1][1])
+        if t[1][0] != "int":
+            raise Unavailable("pointer to " + t[1][0])
+        return t[1]
+
+    # ------------------------------------------------------------------ expressions
+    def cast(self, term, frm, to):
+        if frm[0] != "int" or to[0] != "int":
+            raise Unavailable("cast between %s and %s" % (frm[0], to[0]))
+        if frm[1] == to[1]:
+            return term
+        if to[1] < frm[1]:
+            return "(tr %d %s)" % (to[1], term)
+        return "(%s %d %s)" % ("sx" if frm[2] else "zx", to[1], term)
+
+    def read(self, lv):
+        if lv[0] == "var":
+            return lv[1]
+        if lv[0] == "mem":
+            v = self.fresh()
+            self.pending.append("load %s %s fun %s =>" % (lv[1], lv[2], v))
+            return v
+        raise Unavailable("value of a pointer in an integer expression")
 
     def expr(self, e):
         """Lean term of type BitVec <width of e's C type>"""
@@ -201,19 +336,16 @@ class Fn:
             ck = e.get("castKind")
             inner = e["inner"][0]
             if ck in ("LValueToRValue", "NoOp"):
-                return self.rvalue(inner)
+                return self.read(self.lvalue(inner)) if self.is_lvalue(inner) else self.expr(inner)
             if ck == "IntegralCast":
                 return self.cast(self.expr(inner), ctype(dq(inner)), ctype(dq(e)))
             if ck == "IntegralToBoolean":
-                return "(b2bv (%s ≠ 0))" % self.expr(inner)
+                return "(b2bv8 (%s ≠ 0))" % self.expr(inner)
             raise Unavailable("cast " + str(ck))
-        if k == "DeclRefExpr":
-            return self.rvalue(e)
+        if self.is_lvalue(e):
+            return self.read(self.lvalue(e))
         if k == "UnaryOperator":
             op = e["opcode"]
-            t = ctype(dq(e))
-            if op == "*":
-                return self.rvalue(e)
             if op == "~":
                 return "(~~~ %s)" % self.expr(e["inner"][0])
             if op == "-":
@@ -227,15 +359,14 @@ class Fn:
             t = ctype(dq(e))
             if t[0] != "int":
                 raise Unavailable("operator %s on %s" % (op, t[0]))
-            if op in ("+", "-", "*", "&", "|", "^"):
-                lo = {"+": "+", "-": "-", "*": "*", "&": "&&&", "|": "|||", "^": "^^^"}[op]
-                return "(%s %s %s)" % (self.expr(l), lo, self.expr(r))
-            if op == "<<":
-                return "(%s <<< (%s).toNat)" % (self.expr(l), self.expr(r))
-            if op == ">>":
-                if t[2]:
-                    return "(BitVec.sshiftRight %s (%s).toNat)" % (self.expr(l), self.expr(r))
-                return "(%s >>> (%s).toNat)" % (self.expr(l), self.expr(r))
+            if op == "-" and ctype(dq(l))[0] == "ptr" and ctype(dq(r))[0] == "ptr":
+                b1, i1, t1 = self.pointer(l)
+                b2, i2, t2 = self.pointer(r)
+                if b1 != b2:
+                    raise Unavailable("difference of pointers into different blocks")
+                return "(ptrdiff %d %s %s)" % (t[1], i1, i2)
+            if op in ("+", "-", "*", "&", "|", "^", "<<", ">>"):
+                return self.binop(op, t, self.expr(l), self.expr(r))
             if op in ("<", ">", "<=", ">=", "==", "!=", "&&", "||"):
                 return "(b2bv32 %s)" % self.cond(e)
             raise Unavailable("operator " + op)
@@ -243,52 +374,16 @@ class Fn:
             c, a, b = e["inner"]
             return "(if %s then %s else %s)" % (self.cond(c), self.expr(a), self.expr(b))
         if k == "CallExpr":
-            return self.call(e)
-        if k == "ArraySubscriptExpr":
-            return self.rvalue(e)
+            v = self.call(e)
+            if v is None:
+                raise Unavailable("value of a void call")
+            return v
         raise Unavailable("expression " + str(k))
 
-    def rvalue(self, e):
-        """value of an lvalue expression"""
+    def is_lvalue(self, e):
+        e = self.strip_paren(e)
         k = e.get("kind")
-        if k == "ParenExpr":
-            return self.rvalue(e["inner"][0])
-        if k == "DeclRefExpr":
-            name = e["referencedDecl"]["name"]
-            if name in self.vars and self.vars[name][0] == "int":
-                return name
-            raise Unavailable("value of " + name)
-        if k == "UnaryOperator" and e["opcode"] == "*":
-            v, t = self.load(e["inner"][0])
-            return v
-        if k == "ArraySubscriptExpr":
-            base, idx = e["inner"]
-            b, i, t = self.pointer(base)
-            v = self.fresh()
-            ix = self.expr(idx)
-            self.pending.append("load %s (%s + (%s).toNat) fun %s =>" % (b, i, ix, v))
-            return v
-        return self.expr(e)
-
-    def call(self, e):
-        callee = e["inner"][0]
-        while callee.get("kind") in ("ImplicitCastExpr", "ParenExpr"):
-            callee = callee["inner"][0]
-        name = callee.get("referencedDecl", {}).get("name")
-        if name not in self.unit.fn_names:
-            raise Unavailable("call of " + str(name))
-        self.calls.add(name)
-        args = []
-        for a in e["inner"][1:]:
-            t = ctype(dq(a))
-            if t[0] == "ptr":
-                b, i, et = self.pointer(a)
-                args.append("(%s.drop %s)" % (b, i))
-            else:
-                args.append(self.expr(a))
-        v = self.fresh()
-        self.pending.append("Res.bind (%s fuel %s) fun %s =>" % (name, " ".join(args), v))
-        return v
+        return k in ("DeclRefExpr", "ArraySubscriptExpr", "MemberExpr") or (k == "UnaryOperator" and e.get("opcode") == "*")
 
     def cond(self, e):
         """Lean Prop for e in a boolean context"""
@@ -323,14 +418,115 @@ class Fn:
             raise Unavailable("condition of type " + t[0])
         return "(%s ≠ 0)" % self.expr(e)
 
+    # ------------------------------------------------------------------ calls
+    def call(self, e):
+        callee = e["inner"][0]
+        while callee.get("kind") in ("ImplicitCastExpr", "ParenExpr"):
+            callee = callee["inner"][0]
+        name = callee.get("referencedDecl", {}).get("name")
+        if name in self.unit.ifaces:
+            iface = self.unit.ifaces[name]
+            self.calls.add(name)
+        elif name in EXTERNS:
+            iface = EXTERNS[name]
+        else:
+            raise Unavailable("call of " + str(name))
+        if iface.needs_undef:
+            self.uses_undef = True
+        args, rebind = [], []
+        actual = e["inner"][1:]
+        if len(actual) != len(iface.comps):
+            raise Unavailable("call of %s with %d arguments" % (name, len(actual)))
+        for a, c in zip(actual, iface.comps):
+            if c[0] == "int":
+                args.append(self.expr(a))
+            elif c[0] == "block":
+                s = a
+                while s.get("kind") in ("ImplicitCastExpr", "ParenExpr", "CStyleCastExpr") and s.get("castKind") in (None, "BitCast", "NoOp"):
+                    s = s["inner"][0]
+                if s.get("kind") == "UnaryOperator" and s.get("opcode") == "&":
+                    lv = self.lvalue(s["inner"][0])
+                    if lv[0] != "var":
+                        raise Unavailable("address of something else than a variable")
+                    if lv[2][1] != c[1][1]:
+                        raise Unavailable("address of a variable of another width")
+                    args.append("[%s]" % lv[1])
+                    if c[2]:
+                        rebind.append(lambda o, n=lv[1]: "let %s := cellOf %s %s" % (n, o, n))
+                        if lv[1] in self.fieldnames():
+                            self.written.add(lv[1])
+                else:
+                    b, i, t = self.pointer(a)
+                    if t[1] != c[1][1]:
+                        raise Unavailable("block of another element width")
+                    args.append("(%s.drop %s)" % (b, i))
+                    if c[2]:
+                        self.written.add(b)
+                        rebind.append(lambda o, b=b, i=i: "let %s := splice %s %s %s" % (b, b, i, o))
+            elif c[0] == "struct":
+                root = a
+                while root.get("kind") in ("ImplicitCastExpr", "ParenExpr"):
+                    root = root["inner"][0]
+                if root.get("kind") != "DeclRefExpr" or root["referencedDecl"]["name"] not in self.structs:
+                    raise Unavailable("structure argument that is not a parameter")
+                p = root["referencedDecl"]["name"]
+                if self.structs[p] != c[1]:
+                    raise Unavailable("structure of another type")
+                for f, kd in c[2]:
+                    fv = self.field(p, f)
+                    args.append(fv[1])
+                    if kd[2]:
+                        self.written.add(fv[1])
+                        rebind.append(lambda o, n=fv[1]: "let %s := %s" % (n, o))
+            elif c[0] == "opaque":
+                root = a
+                while root.get("kind") in ("ImplicitCastExpr", "ParenExpr"):
+                    root = root["inner"][0]
+                if root.get("kind") != "DeclRefExpr" or root["referencedDecl"]["name"] not in self.opaques:
+                    raise Unavailable("opaque argument that is not a parameter")
+                p = root["referencedDecl"]["name"]
+                args.append(p)
+                self.written.add(p)
+                rebind.append(lambda o, n=p: "let %s := %s" % (n, o))
+        v = self.fresh() if iface.ret[0] != "void" else "_"
+        outs = [self.fresh() for _ in rebind]
+        pat = v if not outs else "(%s)" % ", ".join([v] + outs)
+        head = "%s%s%s %s" % (name, " fuel" if iface.needs_fuel else "", " undef" if iface.needs_undef else "", " ".join(args))
+        self.pending.append("Res.bind (%s) fun %s =>" % (head.strip(), pat))
+        for o, rb in zip(outs, rebind):
+            self.pending.append(rb(o))
+        return v if iface.ret[0] != "void" else None
+
+    def fieldnames(self):
+        return {fv[1] for fv in self.fieldvar.values()}
+
     # ------------------------------------------------------------------ statements
     def flush(self, pad):
         out = "".join("%s%s\n" % (pad, p) for p in self.pending)
         self.pending = []
         return out
 
-    def assign_text(self, pad, name, term):
-        return "%slet %s := %s\n" % (pad, name, term)
+    def assign(self, pad, lv, term):
+        if lv[0] == "var":
+            if lv[1] in self.fieldnames():
+                self.written.add(lv[1])
+            return self.flush(pad) + "%slet %s := %s\n" % (pad, lv[1], term)
+        if lv[0] == "mem":
+            self.written.add(lv[1])
+            return self.flush(pad) + "%sstore %s %s %s fun %s =>\n" % (pad, lv[1], lv[2], term, lv[1])
+        raise Unavailable("assignment to a pointer")
+
+    def binop(self, op, ct, lhs, rhs):
+        if op == "<<":
+            return "(%s <<< (%s).toNat)" % (lhs, rhs)
+        if op == ">>":
+            if ct[2]:
+                return "(BitVec.sshiftRight %s (%s).toNat)" % (lhs, rhs)
+            return "(%s >>> (%s).toNat)" % (lhs, rhs)
+        if op in ("+", "-", "*", "&", "|", "^"):
+            lo = {"+": "+", "-": "-", "*": "*", "&": "&&&", "|": "|||", "^": "^^^"}[op]
+            return "(%s %s %s)" % (lhs, lo, rhs)
+        raise Unavailable("operator " + op)
 
     def simple(self, s, pad):
         """statement without control flow -> text (or None when it is not one)"""
@@ -350,74 +546,63 @@ class Fn:
                     if not init:
                         raise Unavailable("pointer without initialiser")
                     b, i, et = self.pointer(init[0])
-                    if et != t[1]:
+                    if et != self.elem_of_pointer_type(dq(v)):
                         raise Unavailable("pointer of another element type")
                     out += self.flush(pad) + "%slet %s : Nat := %s\n" % (pad, v["name"], i)
-                    self.declare(v["name"], t, b)
-                elif t[0] == "int":
-                    if not init:
-                        raise Unavailable("variable without initialiser")
-                    term = self.expr(init[0])
+                    self.declare(v["name"], ("ptr", et), b)
+                elif t[0] == "int" or t[0] == "rec":
+                    if t[0] == "rec":
+                        t = union_cell(t[1])
+                    term = self.expr(init[0]) if init else self.undef(t)
                     out += self.flush(pad) + "%slet %s : %s := %s\n" % (pad, v["name"], bv(t), term)
                     self.declare(v["name"], t)
                 else:
                     raise Unavailable("declaration of type " + t[0])
             return out
         if k == "BinaryOperator" and s["opcode"] == "=":
-            name = self.lvalue_var(s["inner"][0])
-            if name is None:
-                raise Unavailable("assignment to something else than a variable")
-            t = self.vars[name]
-            if t[0] == "ptr":
+            lv = self.lvalue(s["inner"][0])
+            if lv[0] == "ptr":
                 b, i, et = self.pointer(s["inner"][1])
-                if b != self.mem[name]:
+                if b != self.mem[lv[1]]:
                     raise Unavailable("pointer moved to another block")
-                return self.flush(pad) + self.assign_text(pad, name, i)
+                return self.flush(pad) + "%slet %s := %s\n" % (pad, lv[1], i)
             term = self.expr(s["inner"][1])
-            return self.flush(pad) + self.assign_text(pad, name, term)
+            return self.assign(pad, lv, term)
         if k == "CompoundAssignOperator":
-            name = self.lvalue_var(s["inner"][0])
-            if name is None:
-                raise Unavailable("compound assignment to something else than a variable")
-            t = self.vars[name]
+            lv = self.lvalue(s["inner"][0])
             op = s["opcode"][:-1]
             rhs = self.expr(s["inner"][1])
-            if t[0] == "ptr":
+            if lv[0] == "ptr":
                 if op != "+":
                     raise Unavailable("pointer " + s["opcode"])
-                return self.flush(pad) + self.assign_text(pad, name, "%s + (%s).toNat" % (name, rhs))
-            ct = ctype(s.get("computeResultType", {}).get("desugaredQualType", s.get("computeResultType", {}).get("qualType", dq(s))))
+                return self.flush(pad) + "%slet %s := %s + (%s).toNat\n" % (pad, lv[1], lv[1], rhs)
+            t = lv[2] if lv[0] == "var" else lv[3]
+            crt = s.get("computeResultType", {})
+            ct = ctype(crt.get("desugaredQualType", crt.get("qualType", dq(s))))
             rt = ctype(dq(s["inner"][1]))
-            lhs = self.cast(name, t, ct)
-            if op in ("<<", ">>"):
-                if op == "<<":
-                    val = "(%s <<< (%s).toNat)" % (lhs, rhs)
-                elif ct[2]:
-                    val = "(BitVec.sshiftRight %s (%s).toNat)" % (lhs, rhs)
-                else:
-                    val = "(%s >>> (%s).toNat)" % (lhs, rhs)
-            elif op in ("+", "-", "*", "&", "|", "^"):
-                lo = {"+": "+", "-": "-", "*": "*", "&": "&&&", "|": "|||", "^": "^^^"}[op]
-                val = "(%s %s %s)" % (lhs, lo, self.cast(rhs, rt, ct))
-            else:
-                raise Unavailable("operator " + s["opcode"])
-            return self.flush(pad) + self.assign_text(pad, name, self.cast(val, ct, t))
+            lhs = self.cast(self.read(lv), t, ct)
+            val = self.binop(op, ct, lhs, rhs if op in ("<<", ">>") else self.cast(rhs, rt, ct))
+            return self.assign(pad, lv, self.cast(val, ct, t))
         if k == "UnaryOperator" and s["opcode"] in ("++", "--"):
-            name = self.lvalue_var(s["inner"][0])
-            if name is None:
-                raise Unavailable("++/-- of something else than a variable")
-            t = self.vars[name]
-            if t[0] == "ptr":
+            lv = self.lvalue(s["inner"][0])
+            if lv[0] == "ptr":
                 if s["opcode"] == "--":
                     raise Unavailable("pointer --")
-                return self.assign_text(pad, name, "%s + 1" % name)
-            return self.assign_text(pad, name, "%s %s 1#%d" % (name, "+" if s["opcode"] == "++" else "-", t[1]))
+                return "%slet %s := %s + 1\n" % (pad, lv[1], lv[1])
+            t = lv[2] if lv[0] == "var" else lv[3]
+            return self.assign(pad, lv, "%s %s 1#%d" % (self.read(lv), "+" if s["opcode"] == "++" else "-", t[1]))
         if k == "CallExpr":
             self.call(s)
             return self.flush(pad)
         if k in ("ImplicitCastExpr", "CStyleCastExpr") and s.get("castKind") == "ToVoid":
             return self.simple(s["inner"][0], pad)
         return None
+
+    def result(self, term):
+        outs = self.output_names()
+        if not outs:
+            return "Res.val %s" % term
+        return "Res.val (%s)" % ", ".join([term] + outs)
 
     def stmts(self, ss, ind, end):
         """ss: list of statement nodes; end(ind) gives the text for falling off the list"""
@@ -436,9 +621,9 @@ class Fn:
             return self.stmts(inner, ind, after)
         if k == "ReturnStmt":
             if "inner" not in s:
-                return pad + "Res.val ()"
+                return pad + self.result("()")
             term = self.expr(s["inner"][0])
-            return self.flush(pad) + pad + "Res.val %s" % term
+            return self.flush(pad) + pad + self.result(term)
         if k == "IfStmt":
             inner = s["inner"]
             c = self.cond(inner[0])
@@ -470,7 +655,8 @@ class Fn:
                 pre = t
             self.nloops += 1
             lname = "%s.loop%d" % (self.name, self.nloops)
-            params = list(self.scope)
+            params = list(self.scope) + self.wblocks() + list(self.opaques)
+            nscope = len(self.scope)
             saved = (dict(self.vars), dict(self.mem))
 
             def again(i2):
@@ -484,11 +670,11 @@ class Fn:
                 return out + "%s%s fuel %s" % (p2, lname, " ".join(params))
 
             def body_end(i2):
-                del self.scope[len(params):]
+                del self.scope[nscope:]
                 return again(i2)
 
             def leave(i2):
-                del self.scope[len(params):]
+                del self.scope[nscope:]
                 self.vars, self.mem = dict(saved[0]), dict(saved[1])
                 return self.stmts(rest, i2, end)
             self.forbid_jumps(body)
@@ -500,7 +686,8 @@ class Fn:
                 text = "%s    if %s then\n%s\n    else\n%s" % (cpre, c, btxt, ltxt)
             else:
                 text = self.stmts([body], 2, body_end)
-                leave(0)       # what follows an endless loop is unreachable; keeps the bookkeeping straight
+                del self.scope[nscope:]
+                self.vars, self.mem = dict(saved[0]), dict(saved[1])
             self.loops.append((lname, params, text))
             del self.scope[mark:]
             self.vars, self.mem = dict(saved[0]), dict(saved[1])
@@ -518,55 +705,141 @@ class Fn:
         for c in n.get("inner", []):
             self.forbid_jumps(c)
 
-    def mem_params(self):
-        return [(n, t) for n, t in self.params if t[0] == "ptr"]
-
-    def lean(self):
-        sig = ["(fuel : Nat)"]
-        lets = []
-        for n, t in self.params:
-            if t[0] == "ptr":
-                if t[1][0] != "int":
-                    raise Unavailable("pointer to " + t[1][0])
-                sig.append("(%s_mem : List (%s))" % (n, bv(t[1])))
-                lets.append("  let %s : Nat := 0\n" % n)
-                self.declare(n, t, n + "_mem")
-            elif t[0] == "int":
+    # ------------------------------------------------------------------ the function
+    def setup_params(self):
+        """Lean parameters, in C parameter order; declares the variables"""
+        sig, lets, comps = [], [], []
+        written = self.known["written"] if self.known else set()
+        for n, t in self.cparams:
+            if t[0] == "int":
                 sig.append("(%s : %s)" % (n, bv(t)))
                 self.declare(n, t)
+                comps.append(("int", t))
+            elif t[0] == "ptr" and t[1][0] == "rec" and t[1][1] in OPAQUE:
+                self.opaques[n] = OPAQUE[t[1][1]]
+                sig.append("(%s : %s)" % (n, OPAQUE[t[1][1]]))
+                comps.append(("opaque", OPAQUE[t[1][1]]))
+            elif t[0] == "ptr" and t[1][0] == "rec" and not RECORDS[t[1][1]][0]:
+                rec = t[1][1]
+                self.structs[n] = rec
+                used = None if not self.known else self.known["fields"].get(n, [])
+                fl = []
+                for f, fq in RECORDS[rec][1]:
+                    if used is not None and f not in used:
+                        continue
+                    try:
+                        ft = ctype(fq)
+                    except Unavailable:
+                        continue
+                    if ft[0] == "int":
+                        sig.append("(%s_%s : %s)" % (n, f, bv(ft)))
+                        self.fieldvar[(n, f)] = ("var", "%s_%s" % (n, f), ft)
+                        self.declare("%s_%s" % (n, f), ft)
+                        fl.append((f, ("int", ft, ("%s_%s" % (n, f)) in written)))
+                    elif ft[0] == "ptr" and ft[1][0] == "int":
+                        blk = "%s_%s_mem" % (n, f)
+                        sig.append("(%s : List (%s))" % (blk, bv(ft[1])))
+                        self.blocks[blk] = ft[1]
+                        self.fieldvar[(n, f)] = ("blk", blk, ft[1])
+                        fl.append((f, ("blk", ft[1], blk in written)))
+                comps.append(("struct", rec, fl))
+            elif t[0] == "ptr":
+                et = union_cell(t[1][1]) if t[1][0] == "rec" else t[1]
+                if et[0] != "int":
+                    raise Unavailable("pointer to " + et[0])
+                blk = n + "_mem"
+                sig.append("(%s : List (%s))" % (blk, bv(et)))
+                self.blocks[blk] = et
+                lets.append("  let %s : Nat := 0\n" % n)
+                self.declare(n, ("ptr", et), blk)
+                comps.append(("block", et, blk in written))
             else:
                 raise Unavailable("parameter of type " + t[0])
+        return sig, lets, comps
+
+    def output_names(self):
+        """Lean names of what the function hands back next to its value, in parameter order"""
+        written = self.known["written"] if self.known else set()
+        out = []
+        for n, t in self.cparams:
+            if n in self.opaques:
+                out.append(n)
+            elif n in self.structs:
+                for f, fq in RECORDS[self.structs[n]][1]:
+                    fv = self.fieldvar.get((n, f))
+                    if fv and fv[1] in written:
+                        out.append(fv[1])
+            elif t[0] == "ptr" and (n + "_mem") in written:
+                out.append(n + "_mem")
+        return out
+
+    def output_types(self):
+        ts = []
+        for o in self.output_names():
+            if o in self.opaques:
+                ts.append(self.opaques[o])
+            elif o in self.blocks:
+                ts.append("List (%s)" % bv(self.blocks[o]))
+            else:
+                ts.append(bv(self.all_types[o]))
+        return ts
+
+    def lean(self):
+        sig, lets, comps = self.setup_params()
         rett = "Unit" if self.ret[0] == "void" else bv(self.ret)
+        full = " × ".join([rett] + self.output_types())
 
         def end(ind):
             if self.ret[0] == "void":
-                return "  " * ind + "Res.val ()"
+                return "  " * ind + self.result("()")
             raise Unavailable("control reaches the end of a non-void function")
         body = self.stmts(list(self.body.get("inner", [])), 1, end)
+        undef = self.known["undef"] if self.known else False
+        head = ["(fuel : Nat)"] + (["(undef : Nat → BitVec 64)"] if undef else [])
+        written = self.known["written"] if self.known else set()
+        fixed = [b for b in self.blocks if b not in written]        # read-only blocks: fixed parameters of the loops
+        fixsig = " ".join((["(undef : Nat → BitVec 64)"] if undef else []) + ["(%s : List (%s))" % (b, bv(self.blocks[b])) for b in fixed])
+        fixargs = " ".join((["undef"] if undef else []) + fixed)
         out = []
-        memsig = " ".join("(%s_mem : List (%s))" % (n, bv(t[1])) for n, t in self.mem_params())
-        memargs = " ".join("%s_mem" % n for n, t in self.mem_params())
+
+        def patch(text):
+            for lname, _, _ in self.loops:
+                if fixargs:
+                    text = text.replace(lname + " fuel", lname + " " + fixargs + " fuel")
+            return text
         for lname, params, text in self.loops:
-            # the loop function: recursion on the fuel, parameters = the variables in scope at the loop
-            alltypes = dict(self.all_types)
-            psig = " → ".join(["Nat"] + [("Nat" if alltypes[p][0] == "ptr" else bv(alltypes[p])) for p in params] + ["Res (%s)" % rett])
-            pats = ", ".join(params)
+            types = []
+            for p in params:
+                if p in self.blocks:
+                    types.append("List (%s)" % bv(self.blocks[p]))
+                elif p in self.opaques:
+                    types.append(self.opaques[p])
+                elif self.all_types[p][0] == "ptr":
+                    types.append("Nat")
+                else:
+                    types.append(bv(self.all_types[p]))
+            psig = " → ".join(["Nat"] + types + ["Res (%s)" % full])
             out.append("def %s %s : %s\n  | 0%s => Res.nofuel\n  | fuel + 1%s =>\n%s" % (
-                lname, memsig, psig, "".join(", _" for _ in params), "".join(", " + p for p in params),
-                text.replace(lname + " fuel", lname + " " + memargs + " fuel" if memargs else lname + " fuel")))
-        body = body
-        for lname, params, text in self.loops:
-            if memargs:
-                body = body.replace(lname + " fuel", lname + " " + memargs + " fuel")
-        out.append("def %s %s : Res (%s) :=\n%s%s" % (self.name, " ".join(sig), rett, "".join(lets), body))
+                lname, fixsig, psig, "".join(", _" for _ in params), "".join(", " + p for p in params), patch(text)))
+        out.append("def %s %s : Res (%s) :=\n%s%s" % (self.name, " ".join(head + sig), full, "".join(lets), patch(body)))
+        self.iface = Iface(self.name, self.ret, comps, undef)
         return "\n\n".join(out)
 
-    def declare(self, name, t, block=None):
-        self.all_types[name] = t                  # every type ever declared, for the loop signatures
-        self.vars[name] = t
-        if t[0] == "ptr":
-            self.mem[name] = block
-        self.scope.append(name)
+
+def translate_fn(node, unit):
+    """passes to a fixed point: the first finds out which fields are used and what is written, the last writes the text"""
+    f1 = Fn(node, unit, None)
+    f1.lean()
+    known = {"fields": {p: sorted(fs) for p, fs in f1.used_fields.items()}, "written": set(f1.written), "undef": f1.uses_undef}
+    for _ in range(4):
+        f2 = Fn(node, unit, known)
+        text = f2.lean()
+        new = {"fields": {p: sorted(fs) for p, fs in f2.used_fields.items()}, "written": set(f2.written), "undef": f2.uses_undef}
+        if new == known:
+            return f2, text
+        known = {"fields": {p: sorted(set(known["fields"].get(p, [])) | set(new["fields"].get(p, []))) for p in set(known["fields"]) | set(new["fields"])},
+                 "written": known["written"] | new["written"], "undef": known["undef"] or new["undef"]}
+    raise Unavailable("translator: no fixed point")
 
 
 class Unit:
@@ -575,8 +848,8 @@ class Unit:
         self.src = src
         self.want = want
         self.fn_nodes, self.tables = parse(src)
-        self.fn_names = {n["name"] for n in self.fn_nodes}
         self.used_tables = set()
+        self.ifaces = {}
 
     def table_elem(self, name):
         q = dq(self.tables[name])
@@ -592,30 +865,21 @@ class Unit:
         return "def %s : List (%s) := [\n%s\n]" % (name, bv(t), ",\n".join(rows))
 
     def translate(self):
-        status, texts, calls, order = {}, {}, {}, []
+        status, texts, order = {}, {}, []
         for node in self.fn_nodes:
             name = node["name"]
             if self.want is not None and name not in self.want:
                 continue
             order.append(name)
             try:
-                f = Fn(node, self)
-                texts[name] = f.lean()
-                calls[name] = set(f.calls)
+                f, text = translate_fn(node, self)
+                texts[name] = text
+                self.ifaces[name] = f.iface        # functions further down may call this one
                 status[name] = "translated"
             except Unavailable as e:
                 status[name] = "unavailable(%s)" % e
-            except (KeyError, IndexError, ValueError) as e:
+            except (KeyError, IndexError, ValueError, TypeError) as e:
                 status[name] = "unavailable(translator: %r)" % (e,)
-        changed = True
-        while changed:
-            changed = False
-            for name in order:
-                if status[name] == "translated":
-                    bad = [c for c in calls[name] if status.get(c) != "translated"]
-                    if bad:
-                        status[name] = "unavailable(calls %s, which is unavailable)" % bad[0]
-                        changed = True
         for w in (self.want or []):
             status.setdefault(w, "unavailable(no such function in %s)" % self.src)
         defs = [self.table_text(t) for t in sorted(self.used_tables)]
@@ -666,7 +930,39 @@ def crc_tie_modules():
     return [m for f, m in CRC_TIE.items() if CRC_STATUS.get(f) == "translated"]
 
 
+# ---------------------------------------------------------------------------------------------------------------
+# src/variable-length-integer.c
+# ---------------------------------------------------------------------------------------------------------------
+
+VARINT_SRC = "src/variable-length-integer.c"
+VARINT_TIE = {
+    "varint_done": "Ufw.Tie.VarintLoops.Done", "varint_u64_length": "Ufw.Tie.VarintLoops.Length",
+    "varint_decode": "Ufw.Tie.VarintLoops.Decode", "varint_from_source": "Ufw.Tie.VarintLoops.FromSource",
+    "varint_encode": "Ufw.Tie.VarintLoops.Encode",
+}
+VARINT_WANT = list(VARINT_TIE) + [
+    "varint_s64_length", "varint_u32_length", "varint_s32_length",
+    "varint_decode_u32", "varint_decode_s32", "varint_decode_u64", "varint_decode_s64",
+    "varint_u32_from_source", "varint_s32_from_source", "varint_u64_from_source", "varint_s64_from_source"]
+VARINT_STATUS = {}
+
+
+def varint_gen():
+    u = Unit(VARINT_SRC, VARINT_WANT)
+    status, defs = u.translate()
+    write("VarintLoops", VARINT_SRC, defs)
+    VARINT_STATUS.clear()
+    VARINT_STATUS.update(status)
+    return {"cloops:" + k: v for k, v in status.items()}
+
+
+def varint_tie_modules():
+    return [m for f, m in VARINT_TIE.items() if VARINT_STATUS.get(f) == "translated"]
+
+
 if __name__ == "__main__":
-    for k, v in crc_gen().items():
+    which = sys.argv[1] if len(sys.argv) > 1 else "crc"
+    st = crc_gen() if which == "crc" else varint_gen()
+    for k, v in st.items():
         print(k, v)
-    print(open(os.path.join(vf.LEAN, "Ufw/Gen/CrcLoops.lean")).read()[-6000:])
+    print(open(os.path.join(vf.LEAN, "Ufw/Gen/%s.lean" % ("CrcLoops" if which == "crc" else "VarintLoops"))).read()[-9000:])
